@@ -269,6 +269,21 @@ theorem unchanged_uploads_nothing (pre : List Ev) (hlaw : Law {} pre)
       have : remoteLabel (runEv {} pre) = (runEv {} pre).last := by simp [remoteLabel, hr]
       omega
 
+/-- THE FULL STATEMENT of "rounds with no change upload nothing" (no side condition) -/
+def unchanged_uploads_nothing_full : Prop :=
+  ∀ (pre : List Ev), Law {} pre → ∀ (during c : Nat) (pOk cErr uOk : Bool),
+    remoteLabel (runEv {} pre) = (runEv {} pre).db →
+    ∀ l c', (stepEv (runEv {} pre) (.round during c pOk cErr uOk)).2 ≠ some (.uploaded l c')
+
+/-- false: a NEW Uploader value (after a process restart) that cannot read the remote id
+uploads again although nothing changed (known finding, by design the safe side;
+`unchanged_uploads_nothing` is the partial statement) -/
+theorem unchanged_uploads_nothing_witness : ¬ unchanged_uploads_nothing_full := by
+  intro h
+  have := h [.write 2, .round 0 3 true false true, .restart] (by decide) 0 3 true true true (by decide) 3 3
+  revert this
+  decide
+
 /-- **A failed upload (or a failed backup) is not recorded.** Whatever the state, a round
 whose `Upload` fails or whose `Provide` fails leaves `lastIndex` and the remote object
 as they were. -/
